@@ -213,8 +213,10 @@ static void enumerate(report& r)
 {
     std::string const tn = vf::type_name<T>();
     auto const ex = extremes<T>();
-    std::vector<cfg> cfgs = {{0, 0}, {1, 0}, {1, 1}, {2, 0}, {2, 1}, {2, 2}, {2, 3}, {2, 4}, {3, 0}, {3, 1}, {3, 4}};   // kind 3: multi-channel with a distribution
-    std::vector<std::vector<T>> const wv = {{T(1), T(1), T(1)}, {T(0), T(1), T(1)}, {T(1), T(0), T(1)}, {T(1), T(1), T(0)}, {T(0), T(0), T(1)}};
+    std::vector<cfg> cfgs = {{0, 0}, {1, 0}, {1, 1}, {2, 0}, {2, 1}, {2, 2}, {2, 3}, {2, 4}, {2, 5}, {3, 0}, {3, 1}, {3, 4}};   // kind 3: multi-channel with a distribution
+    // (the last one: a weight that is tiny but not zero - the channel is enabled and is selected for the canonical number 0)
+    std::vector<std::vector<T>> const wv = {{T(1), T(1), T(1)}, {T(0), T(1), T(1)}, {T(1), T(0), T(1)}, {T(1), T(1), T(0)}, {T(0), T(0), T(1)},
+        {std::numeric_limits<T>::epsilon() / T(8), T(1), T(1)}};
     for (auto const& c : cfgs)
     {
         sz const n = (r.a().thorough() && c.kind <= 1) ? 4 : 3;
